@@ -261,6 +261,122 @@ theorem einv_trial_grand_pos (sim : Sim) (he : sim.ens = .grand) (t : Tree) (v :
     simp only [trial, hok, if_true, Bool.false_eq_true, if_false] at this
     exact this
 
+/-! ### every driver, every tree whose rejection restores the atoms -/
+
+/-- energy bookkeeping through one trial for ANY driver: the three hypotheses are what the C03 theorems and the
+    `revertCalc_fresh_*` lemmas provide for the driver/tree at hand -/
+theorem einv_trial_of (sim : Sim) (t : Tree) (v : Bool) (cs : CState) (heinv : EInv cs)
+    (hfail : (callTree t cs.m).1 = false → (callTree t cs.m).2.atoms = cs.m.atoms)
+    (hrej : (callTree t cs.m).1 = true → (revertState sim (callTree t cs.m).2).atoms = cs.m.atoms)
+    (hrc : (callTree t cs.m).1 = true → ∀ c : CalcS, Fresh c (callTree t cs.m).2.atoms →
+            Fresh (revertCalc sim.ens c (some (energy cs.m.atoms)) cs.m.atoms) cs.m.atoms) :
+    let cs' := (logRead (ctrial sim t v cs).2).2
+    EInv cs' ∧ (logRead (ctrial sim t v cs).2).1 = energy cs'.m.atoms := by
+  unfold ctrial
+  rcases hct : callTree t cs.m with ⟨ok, s1⟩
+  rw [hct] at hfail hrej hrc
+  simp only [] at hfail hrej hrc ⊢
+  cases ok with
+  | false =>
+    simp only [Bool.false_eq_true, if_false]
+    have ha := hfail rfl
+    have hf : Fresh cs.cal s1.atoms := fresh_congr _ _ _ ha heinv.fresh
+    obtain ⟨g1, g2, _, _, _⟩ := getEnergy_spec cs.cal s1.atoms (fresh_valid _ _ hf)
+    refine ⟨⟨g2, ?_, ?_⟩, g1⟩
+    · show cs.lastE = energy s1.atoms; rw [ha]; exact heinv.lastE
+    · show cs.lastResults = some (energy s1.atoms); rw [ha]; exact heinv.lastR
+  | true =>
+    have hv0 : Valid cs.cal := fresh_valid _ _ heinv.fresh
+    obtain ⟨_, f1, v1, _, _⟩ := getEnergy_spec cs.cal s1.atoms hv0
+    cases v with
+    | true =>
+      simp only [if_true]
+      obtain ⟨e2, f2, v2, _, _⟩ := getEnergy_spec (getEnergy cs.cal s1.atoms).2 s1.atoms v1
+      have hat : (saveState sim s1).atoms = s1.atoms := saveState_atoms sim s1
+      have f2' : Fresh (getEnergy (getEnergy cs.cal s1.atoms).2 s1.atoms).2 (saveState sim s1).atoms :=
+        fresh_congr _ _ _ hat f2
+      obtain ⟨g1, g2, _, _, _⟩ := getEnergy_spec _ (saveState sim s1).atoms (fresh_valid _ _ f2')
+      refine ⟨⟨g2, ?_, ?_⟩, g1⟩
+      · show (getEnergy (getEnergy cs.cal s1.atoms).2 s1.atoms).1 = energy (saveState sim s1).atoms
+        rw [hat]; exact e2
+      · show (getEnergy (getEnergy cs.cal s1.atoms).2 s1.atoms).2.results = some (energy (saveState sim s1).atoms)
+        rw [hat]; exact f2.1
+    | false =>
+      simp only [if_true, Bool.false_eq_true, if_false]
+      have hat : (revertState sim s1).atoms = cs.m.atoms := hrej rfl
+      have hrc' : Fresh (revertCalc sim.ens (getEnergy cs.cal s1.atoms).2 cs.lastResults (revertState sim s1).atoms)
+          (revertState sim s1).atoms := by
+        rw [hat, heinv.lastR]
+        exact hrc rfl _ f1
+      obtain ⟨g1, g2, _, _, _⟩ := getEnergy_spec _ (revertState sim s1).atoms (fresh_valid _ _ hrc')
+      refine ⟨⟨g2, ?_, ?_⟩, g1⟩
+      · show cs.lastE = energy (revertState sim s1).atoms; rw [hat]; exact heinv.lastE
+      · show cs.lastResults = some (energy (revertState sim s1).atoms); rw [hat]; exact heinv.lastR
+
+/-- **einv_trial (isobaric / isotension driver, cell move)**: also after a rejected deformation the reported and the
+    reference energy are those of the restored cell and positions -/
+theorem einv_trial_cell (sim : Sim) (he : sim.ens = .isobaric) (r : Nat) (v : Bool) (cs : CState)
+    (hinv : Inv sim.ens cs.m) (heinv : EInv cs) (hk : (cs.m.obj r).kind = .cell) :
+    let cs' := (logRead (ctrial sim (.leaf r) v cs).2).2
+    EInv cs' ∧ (logRead (ctrial sim (.leaf r) v cs).2).1 = energy cs'.m.atoms := by
+  have hspec := cellCall_spec r cs.m
+  have hcall : callTree (.leaf r) cs.m = cellCall r cs.m := by simp [callTree, leafCall, hk]
+  apply einv_trial_of sim (.leaf r) v cs heinv
+  · intro hf
+    have := fail_restores_cell sim r v cs.m hk hf
+    simpa [trial, hf] using this
+  · intro hok
+    have := reject_restores_cell sim r cs.m he hinv hk hok
+    simpa [trial, hok] using this
+  · intro hok c hfc
+    rw [he]
+    apply revertCalc_fresh_strip c cs.m.atoms _ _ hfc
+    rw [hcall] at hok ⊢
+    rcases hspec.2.2 with ⟨hx, _⟩ | ⟨_, f, hf⟩
+    · rw [hok] at hx; cases hx
+    · rw [hf]; exact deform_strip _ _ _
+
+/-- **einv_trial (Hamiltonian driver, Hamiltonian move)** — the energy read is the potential energy; momenta are not
+    part of what the calculator compares -/
+theorem einv_trial_ham (sim : Sim) (he : sim.ens = .hamiltonian) (r : Nat) (v : Bool) (cs : CState)
+    (hinv : Inv sim.ens cs.m) (heinv : EInv cs) (hk : (cs.m.obj r).kind = .ham) :
+    let cs' := (logRead (ctrial sim (.leaf r) v cs).2).2
+    EInv cs' ∧ (logRead (ctrial sim (.leaf r) v cs).2).1 = energy cs'.m.atoms := by
+  have hspec := hamCall_spec r cs.m
+  have hcall : callTree (.leaf r) cs.m = hamCall r cs.m := by simp [callTree, leafCall, hk]
+  apply einv_trial_of sim (.leaf r) v cs heinv
+  · intro hf
+    have := fail_restores_ham sim r v cs.m hk hf
+    simpa [trial, hf] using this
+  · intro hok
+    have := reject_restores_ham sim r cs.m he hinv hk hok
+    simpa [trial, hok] using this
+  · intro hok c hfc
+    apply revertCalc_fresh_aux sim.ens (Or.inr he) c cs.m.atoms _ _ hfc
+    rw [hcall] at hok ⊢
+    rcases hspec.2.2 with ⟨hx, _⟩ | ⟨_, haux⟩
+    · rw [hok] at hx; cases hx
+    · exact haux
+
+/-- **einv_trial (isobaric and Hamiltonian drivers, displacement-type trees)** -/
+theorem einv_trial_pos_any (sim : Sim) (he : sim.ens = .canonical ∨ sim.ens = .hamiltonian ∨ sim.ens = .isobaric)
+    (t : Tree) (v : Bool) (cs : CState) (hinv : Inv sim.ens cs.m) (heinv : EInv cs)
+    (hrs : ∀ r ∈ t.refs, r < cs.m.heap.length) (ht : PosTree cs.m t) :
+    let cs' := (logRead (ctrial sim t v cs).2).2
+    EInv cs' ∧ (logRead (ctrial sim t v cs).2).1 = energy cs'.m.atoms := by
+  have hb : sim.ens ≠ .base := by rcases he with h | h | h <;> rw [h] <;> simp
+  have hk := callTree_keeps t cs.m hrs ht
+  apply einv_trial_of sim t v cs heinv
+  · exact callTree_fail t cs.m hrs ht
+  · intro hok
+    have := (reject_restores sim t cs.m hb hinv hrs ht hok).2
+    simpa [trial, hok] using this
+  · intro _ c hfc
+    rcases he with h | h | h
+    · rw [h]; exact revertCalc_fresh_aux .canonical (Or.inl rfl) c _ _ hk.pos.auxOnly hfc
+    · rw [h]; exact revertCalc_fresh_aux .hamiltonian (Or.inr rfl) c _ _ hk.pos.auxOnly hfc
+    · rw [h]; exact revertCalc_fresh_strip c _ _ hk.pos.stripOnly hfc
+
 /-! ### non-vacuity and the known finding -/
 
 def c4Sim : Sim := { ens := .canonical, table := [{ name := "a", oid := 0, tree := .leaf 0 }] }
